@@ -70,10 +70,10 @@ CHECKS = {
         'assumptions': T_ASSUME,
     },
     'C05': {
-        'units': lambda t: [u_exc(t, 0), u_exc(t, 1), u_exc(t, 2), u_conv(t)],
+        'units': lambda t: [u_exc(t, 0), u_exc(t, 1), u_exc(t, 2), u_exc(t, 4), u_exc(t, 5), u_conv(t)],
         'rule': 'tables over must/if_must/if_must_else/opt_must/star_must/list_must/raise/raise_message/try_catch_* (8 variants) nested with the classical '
                 'operators; holes may throw parse_error, a std::exception and a foreign type; actions may throw (deviation bounded); three control '
-                'families; oracle: exception identity, message, position interval, what(), nesting',
+                'families plus two must_if controls (message table; explicit raise_on_failure); oracle: exception identity, message, position interval, what(), nesting',
         'assumptions': T_ASSUME,
     },
     'C04': {
@@ -90,15 +90,14 @@ CHECKS = {
         'assumptions': T_ASSUME,
     },
     'C03': {
-        'units': lambda t: [u_atoms(t, 0), u_atoms(t, 1), u_conv(t), u_core(t), u_limits(t), plain_unit('u_c03g', 'units/c03g.cpp', t), plain_unit('u_c10', 'units/c10.cpp', t),
-                            plain_unit('u_c15', 'units/c15.cpp', t), plain_unit('u_c16', 'units/c16.cpp', t)],
+        'units': lambda t: [u_atoms(t, 0), u_atoms(t, 1), u_conv(t), u_core(t), u_limits(t), plain_unit('u_c03g', 'units/c03g.cpp', t), plain_unit('u_c10', 'units/c10.cpp', t)],
         'rule': 'every library atom (ascii convenience rules, integer rules, raw_string, predicates, utf8::any, eol family, istring, bytes, everything) as root and '
                 'one level below each classical operator, all inputs over a per-family alphabet (length <=4..6) plus boundary numerals, on terminator-less '
                 'buffers with a PROT_NONE page directly after the input (pass 1) and directly before it (pass 2), eager and lazy; nested windows (rematch, minus) '
                 'from the convenience space; oracle: no guard-page fault, no peek_char(offset)/bump(count) reaching the end of the current window '
                 '(TAO_PEGTL_VERIF hook), cursor <= end at every rule entry/exit; byte-limited windows (limit_bytes at every offset) from the limits space; shipped grammars '
                 '(http incl. chunked bodies with extreme chunk sizes, json, uri, iri): all token strings of length <=4 (thorough 5) over per-grammar alphabets, guard page after / before, '
-                'eager / lazy; code-unit rules (utf8/16/32, uintN) with all truncations on guard-paged buffers (units of C10), integer and raw_string units (C15, C16)',
+                'eager / lazy; code-unit rules (utf8/16/32, uintN) with all truncations on guard-paged buffers (units of C10)',
         'assumptions': T_ASSUME + ['reads through std::memcmp on current() are only seen by the guard page, i.e. for windows that end at the physical end of the buffer'],
     },
     'C18': {
@@ -156,6 +155,23 @@ CHECKS = {
                 'RFC 3986 Appendix A (lang/uri_ref.hpp); parse_error counts as reject, any other exception is a violation',
         'assumptions': ['lang/uri_ref.hpp is RFC 3986 Appendix A (cross-checked against a regex reference on 1.5M strings during development)'],
         'technique': 'exhaustive enumeration of bounded strings on the real grammar against an independent language-exact matcher',
+    },
+    'C07': {
+        'units': lambda t: [{'name': 't_diff', 'src': 'checks/tdiff.cpp', 'flags': [], 'opt': '-O0' if t == 'quick' else '-O1'},
+                            plain_unit('u_c07buf', 'buf/c07_buffer.cpp', t)] +
+                           ([{'name': 'u_c07buf_asan', 'src': 'buf/c07_buffer.cpp', 'flags': ['-g', '-fsanitize=address,undefined', '-fno-sanitize-recover=undefined'], 'opt': '-O1',
+                              'cxx': 'clang++', 'env': {'ASAN_OPTIONS': 'detect_leaks=0'}}] if t == 'thorough' else []),
+        'engine': 'table-engine + buffer_input state-space search',
+        'rule': '(a) explicit-state breadth-first search of the real buffer_input: Chunk {1,2,3} x maximum 1..4 (thorough 1..5) (+ Chunk 64), streams of 0..8 (thorough 10) bytes with an optional LF, '
+                'operations require/size/end(k<=5), empty, bump*, discard (only without a held mark), mark/restore/drop on real rewind guards, every legal reader answer (1..request bytes, 0 only at '
+                'the end) - to the fixpoint of canonical states; invariants after every operation: window bytes equal the stream, position formula, buffer accounting, reader never asked to write '
+                'outside the allocation, require/size postconditions, overflow_error only when the request cannot fit; thorough repeats it under ASan+UBSan; '
+                '(b) differential runs: every table program of <=2 rules (classical operators, must, eol, bytes<2>, require<2>) under three discard-bearing wrappers, all inputs over {a,b,LF} of '
+                'length <=4 (thorough 5), through eager/lazy memory_input, string_input, argv_input, read_input, mmap_input, file_input, istream_input, cstream_input and buffer_input with Chunk '
+                '1/2/64 and every read-size pattern with <=2 (thorough 3) short reads; oracle: result, consumed bytes, action trace with positions and error identical to the eager memory_input run, '
+                'or std::overflow_error when (and only when) the buffer maximum is smaller than the input',
+        'assumptions': T_ASSUME + ['files of page-boundary sizes for the file based inputs are exercised with small inputs only'],
+        'technique': 'explicit-state model checking of buffer_input (BFS over operation x reader-answer histories on the real object) plus exhaustive differential exploration of input classes',
     },
     'C10': {
         'units': lambda t: [plain_unit('u_c10', 'units/c10.cpp', t)],
